@@ -43,12 +43,19 @@ class Gen:
         self.forms[f] = self.forms.get(f, 0) + 1
         self.budget -= 1
 
+    def spell(self, k):
+        # spellings of every length from 3 to 48 (k determines the spelling, so that names can be referred to again)
+        r2 = (k * 2654435761) & 0xffffffff
+        base = "n%s%d" % ("abcdefgh"[r2 % 8], k)
+        want = 3 + (r2 >> 8) % 46
+        return base + "_" * max(0, want - len(base) - 1) + ("z" if want > len(base) else "")
+
     def name(self):
         self.names += 1
-        return "n%s%d" % (self.rnd.choice("abcdefgh"), self.names)
+        return self.spell(self.names)
 
     def old_name(self):
-        return "n%s%d" % (self.rnd.choice("abcdefgh"), self.rnd.randrange(1, max(2, self.names + 1)))
+        return self.spell(self.rnd.randrange(1, max(2, self.names + 1)))
 
     def hexlit(self):
         r = self.rnd
